@@ -267,8 +267,13 @@ pub fn run(args: &[String]) -> Vec<String> {
     let mut out = Vec::new();
     for _ in 0..cases {
         let mut r = rng.fork();
-        let (req, obs) = interleaving(&mut r, max_steps);
-        out.push(format!("{req}\t{obs}"));
+        match quiet(|| interleaving(&mut r, max_steps)) {
+            Ok((req, obs)) => out.push(format!("{req}\t{obs}")),
+            Err(p) => out.push(format!(
+                "!conc interleaving #{}\tFAIL a window acquisition / commit / consume that the protocol allows failed or panicked while the peer held its window: {p}",
+                out.len()
+            )),
+        }
     }
     for i in 0..stress_runs {
         out.push(stress(seed.wrapping_mul(1000).wrapping_add(i as u64), stress_total, false));
